@@ -57,3 +57,21 @@ extern "C" void h_valuector_digits(void) {
     __CPROVER_assert(v.type != Value::T_INT || v.int64 == (neg ? -(long)mag : (long)mag), "spec: ... with exactly its value");
     __CPROVER_assert(!neg, "canary: negative long literal reachable");
 }
+// ---- CONCRETE boundary literals (bounded stand-in, labelled as such: the symbolic 19-digit query above does not finish):
+// the longest decimal spellings of int64 values, 15..20 characters, both signs; each must be the integer with exactly its value
+#define H_LIT(text, value) do { const char t_[] = text; g_getopcode_result = (opcodetype)0xff; g_getopcode_calls = 0; verif_expect_throw = 0; \
+    Value v_(t_); __CPROVER_assert(v_.type == Value::T_INT && v_.int64 == (value), "spec: long decimal literal " text " is the integer with exactly that value"); } while (0)
+extern "C" void h_valuector_literals(void) {
+    H_LIT("999999999999999", 999999999999999L);
+    H_LIT("1000000000000000", 1000000000000000L);
+    H_LIT("-100000000000000", -100000000000000L);
+    H_LIT("-1000000000000000", -1000000000000000L);
+    H_LIT("12345678901234567", 12345678901234567L);
+    H_LIT("281474976710656", 281474976710656L);
+    H_LIT("72057594037927936", 72057594037927936L);
+    H_LIT("9223372036854775807", 9223372036854775807L);
+    H_LIT("-9223372036854775807", -9223372036854775807L);
+    H_LIT("2147483648", 2147483648L);
+    H_LIT("-2147483649", -2147483649L);
+    __CPROVER_assert(0, "canary: the literal list was evaluated to the end");
+}
